@@ -118,6 +118,10 @@ def gen(rng, tier):
         for b in ("ksi", "ksi+http", "https", "http", "ksi+tcp", "file", "ftp", "Http"):
             pa, pb = rparts(rng, a), rparts(rng, b)
             yield "svc2 %s %s %s %s %s" % (rng.choice(["agg", "ext"]), hx(pa.uri()), hx(pb.uri()), hx("L"), hx("K"))
+    # --- aggregator and extender on one context from every ordered pair of schemes: each request kind travels on its own service's transport
+    for a in ("ksi", "ksi+http", "https", "http", "ksi+tcp", "file", "KSI+TCP"):
+        for b in ("ksi", "ksi+http", "https", "http", "ksi+tcp", "file", "Http"):
+            yield "route %s %s" % (hx(rparts(rng, a).uri()), hx(rparts(rng, b).uri()))
     # --- random well-formed URIs
     for _ in range(1500 if not big else 30000):
         p = rparts(rng, rng.choice(list(cases(rng.choice(SCHEMES)))))
